@@ -370,6 +370,12 @@ def _abs_eps_compares(tree):
                     and not isinstance(v.value, bool) and 0 < abs(v.value) < 1e-3:
                 out.append(n)
                 break
+    # np.isclose / np.allclose / math.isclose carry built-in thresholds (rtol 1e-5, atol 1e-8): deciding
+    # structure with them (ties, zero tests, group membership) is the same absolute-epsilon guard
+    for n in ast.walk(tree):
+        if isinstance(n, ast.Call) and ast.unparse(n.func) in ("np.isclose", "np.allclose", "numpy.isclose",
+                                                                "numpy.allclose", "math.isclose"):
+            out.append(n)
     return out
 
 
@@ -379,8 +385,8 @@ def r_abseps(A, ctx, scope, rule="R-ABSEPS"):
              "changes behaviour when a feature (and its weight) is rescaled, and treats small "
              "but meaningful curvatures / updates as zero")
     # the matcher must see its positive example on every run
-    probe = ast.parse("def f(lc, j):\n    return 1 / lc[j] if lc[j] > 1e-10 else 1000\n")
-    if len(_abs_eps_compares(probe)) != 1:
+    probe = ast.parse("def f(lc, j, t):\n    a = np.isclose(t[1:], t[:-1])\n    return 1 / lc[j] if lc[j] > 1e-10 else 1000\n")
+    if len(_abs_eps_compares(probe)) != 2:
         raise AnalysisError("R-ABSEPS matcher lost its positive example")
     n = 0
     for m in A.prog.modules.values():
